@@ -41,10 +41,10 @@ func init() {
 	prop("C05", []string{"T-RESERVED", "P-VALIDALIAS", "P-REGISTER", "T-REGEX"},
 		"The reserved-word predicate is a pure membership test over a table containing all 25 keywords and all universe-scope identifiers of the analysing toolchain (exhaustive); the validity predicate rejects reserved words and every already registered name; the name entered in the table is the very string that passed that test (with or without PackagePrefix); guessed names consist of ASCII letters / digits, are never empty and never start with a digit.",
 		"whether a user-supplied PackagePrefix is itself a legal identifier")
-	prop("C06", []string{"P-LOCALDOT", "P-ISNULL", "P-VALIDALIAS", "P-REGISTER", "P-RENDERITEMS"},
+	prop("C06", []string{"P-LOCALDOT", "P-ISNULL", "P-VALIDALIAS", "P-REGISTER", "P-RENDERITEMS", "P-CTOR@path"},
 		"isLocal is exact string equality; isDotImport is exactly hints[path] = {\".\", alias}; a package token is null exactly for dot-imported or local paths; \".\" is accepted as a name unconditionally and first; prefix / numbering never touch a name not known to differ from \".\"; the list renderer registers every package token before its null test, so a dot import is still emitted.",
 		"resolution of the bare identifier by the Go compiler")
-	prop("C07", []string{"P-MAPRANGE", "W-NONDET-API", "P-TAG"},
+	prop("C07", []string{"P-MAPRANGE", "W-NONDET-API", "P-TAG", "W-RENDER-STORES"},
 		"Every range over a map in jen has only order-insensitive effects (updates keyed by the range key, collected slices sorted before any other read, no output / registration / concatenation inside the loop) and nothing in jen consults a clock, randomness, the environment or formats an address. One known finding on the pinned tree: Dict.render renders keys (and thereby registers imports) inside its map range.",
 		"determinism of sort / fmt / go/format themselves; the order among Dict pairs whose keys render identically")
 	prop("C08", []string{"W-RENDER-STORES", "W-IMPORTS-WRITERS", "P-REGISTER", "P-FRAGMENT", "P-GROUPRENDER", "P-MAPRANGE@@!registration function"},
